@@ -47,6 +47,37 @@ def run(F, R):
             R.check(ok, "C17.R1", f"err:{c.name.rsplit('::',1)[-1]}#{_ord(g, c)}", f"lookup error swallowed ({sorted(tags)})", g.loc(c.bb), dict(consumers=sorted(tags)))
     R.floor("C17.R1", "fallible lookups audited in data_files_of", n, 6)
 
+    # every manifest of the list is opened: avro_records(&manifest) lies on every path through the outer loop body
+    ar = [c for c in f.calls() if c.name == I + "::avro_records"]
+    inner = [c for c in ar if "resolve_uri(" in k9.kexpr(f, c.args[0])]
+    outer_next = [c for c in f.calls() if c.name.endswith("::next") and any(f.dominates(c.bb, x.bb) for x in inner)]
+    okm = False
+    if inner and outer_next:
+        hdr = outer_next[0]
+        for sb in range(f.n):
+            si = f.switch_info(sb)
+            if si and si[0] == "enum" and si[1][0] == hdr.dest and "Some" in si[2]:
+                # no way back to the loop header (next manifest) or to a normal return without opening this manifest;
+                # error returns (`?`) are allowed
+                region = f.reachable(si[2]["Some"], avoid=frozenset([inner[0].bb]))
+                okm = hdr.bb not in region and not any(i in region for i in ok_value_blocks(f))
+    R.check(okm, "C17.R1", "every-listed-manifest-is-read", "a manifest of the snapshot's manifest list can be skipped without being read: its live data files silently vanish from the table", f.loc(inner[0].bb) if inner else f.loc(), dict(manifest_reads=len(inner)))
+
+    # ---- R6 serialized names follow the Iceberg spec (kebab-case of the field): a wrong key plus #[serde(default)] reads 0
+    R.rule("C17.R6", "K6 table agreement", "every Deserialize struct of storage::iceberg maps field `a_b` to the JSON key `a-b` (Iceberg table-metadata spelling)")
+    nst = 0
+    for ap, ad in F.adts.items():
+        if not ap.startswith(I + "::") or ad["enum"]:
+            continue
+        vis = [b for pth, b in F.bodies.items() if b["file"] == "src/storage/iceberg.rs" and "Deserialize<'de> for " + ap + ">" in pth and pth.endswith("visit_str")]
+        if not vis:
+            continue
+        nst += 1
+        keys = {l[0][2:] for l in vis[0]["lits"] if l[0].startswith("s:")}
+        want = {fl[0].replace("_", "-") for fl in ad["variants"][0]["fields"]}
+        R.check(keys == want, "C17.R6", f"{ap.rsplit('::', 1)[-1]}:json-keys", f"{ap.rsplit('::', 1)[-1]} is deserialized from keys {sorted(keys)} but its fields need {sorted(want)}: a misspelt key with a serde default silently reads as 0/None (e.g. every last-updated-ms ties)", f"{ad['file']}:{ad['line']}", dict(keys=sorted(keys)))
+    R.floor("C17.R6", "Deserialize structs in storage::iceberg", nst, 2)
+
     # ---- R2
     o = F.fn(I + "::open_table")
     ms = [m for m in find_match(o, "std::option::Option") if any(pat_head(a["pat"]).endswith("Some") for a in m["arms"]) and any(a["pat"].endswith("None") for a in m["arms"])]
